@@ -32,6 +32,9 @@ class Stats:
 
 STATS = Stats()
 QUERY_TIMEOUT_MS = 60000
+XSAMPLES = []        # (name, smt-lib2 text, z3 verdict) kept for the cross-solver diff
+XLIMIT = 0
+_XSEEN = [0]
 
 
 def is_sym(v):
@@ -290,6 +293,13 @@ def check_valid(name, assumptions, goal_negated):
     t = time.time()
     r = s.check()
     STATS.solver_s += time.time() - t
+    if XLIMIT and len(XSAMPLES) < XLIMIT:
+        _XSEEN[0] += 1
+        if _XSEEN[0] % 7 == 1 or r == z3.sat:
+            try:
+                XSAMPLES.append((name, s.sexpr(), str(r)))
+            except Exception:
+                pass
     if r == z3.unsat:
         STATS.unsat += 1
         return Verdict('unsat', name=name)
@@ -347,3 +357,43 @@ def eval_bytes(bs, model):
 
 def sha(s):
     return hashlib.sha1(s.encode() if isinstance(s, str) else s).hexdigest()[:12]
+
+
+def cross_solve(samples, timeout=300):
+    """re-decide sampled obligations with z3 4.8.12 (/usr/bin/z3) and cvc5; returns a summary dict.
+    Any '(error' line makes that query inconclusive for that solver; a sat/unsat disagreement is a tool error."""
+    import subprocess, shutil
+    out = {'queries': len(samples)}
+    if not samples:
+        return out
+    script = []
+    for name, smt, verdict in samples:
+        script.append('(reset)\n(set-logic ALL)\n%s\n(check-sat)\n(echo "--next--")\n' % smt)
+    text = ''.join(script)
+    for label, cmd in (('z3_4_8_12', ['/usr/bin/z3', '-in', '-T:%d' % timeout]), ('cvc5', ['cvc5', '--incremental', '--lang=smt2', '--tlimit-per=20000'])):
+        if not shutil.which(cmd[0]) and not os.path.exists(cmd[0]):
+            out[label] = {'skipped': 'solver not found'}
+            continue
+        try:
+            r = subprocess.run(cmd, input=text, capture_output=True, text=True, timeout=timeout + 60)
+        except subprocess.TimeoutExpired:
+            out[label] = {'skipped': 'timeout'}
+            continue
+        chunks = (r.stdout or '').split('--next--')
+        agree = disagree = incon = 0
+        bad = []
+        for (name, smt, verdict), ch in zip(samples, chunks):
+            lines = [l.strip() for l in ch.strip().split('\n') if l.strip()]
+            if any(l.startswith('(error') for l in lines):
+                incon += 1
+                continue
+            ans = [l for l in lines if l in ('sat', 'unsat', 'unknown')]
+            if not ans or ans[-1] == 'unknown' or verdict == 'unknown':
+                incon += 1
+            elif ans[-1] == verdict:
+                agree += 1
+            else:
+                disagree += 1
+                bad.append(name)
+        out[label] = {'agree': agree, 'disagree': disagree, 'inconclusive': incon + max(0, len(samples) - len(chunks)), 'disagreeing': bad[:5]}
+    return out
